@@ -35,8 +35,17 @@ def gen_cases(rng, tier, count=None):
             c = TW.safe_case(rng, algo, tier)
             T = c["T"]
             qs = []
-            for _ in range(int(rng.integers(1, 4))):
-                qs += [int(rng.integers(0, T))] * int(rng.integers(1, 4))
+            if rng.random() < 0.3:
+                qs = list(range(T))  # a query after every round
+            for _ in range(int(rng.integers(1, 4))) if not qs else []:
+                if rng.random() < 0.5:
+                    # around the rounds where the internal counter reaches a power of two (refresh of delta~,
+                    # Zooming phase ends 2, 6, 14, ...): the places where a query with a side effect would matter
+                    k = int(rng.integers(1, max(2, T.bit_length())))
+                    q = min(T - 1, max(0, 2 ** k - int(rng.integers(0, 5))))
+                else:
+                    q = int(rng.integers(0, T))
+                qs += [q] * int(rng.integers(1, 4))
             c["variant"] = {"queries": sorted(qs)}
         else:
             algo = LABEL_ALGOS[(i // 3 + i) % len(LABEL_ALGOS)]
